@@ -61,6 +61,12 @@ def run(task):
                 r[name] = limbs(f(n, k))
             out.append(r)
         return out
+    if op == "ngenotypes":
+        # N = number of genotypes of `a` alleles at ploidy k, as the programs size G-length fields and the streaming
+        # enumeration of call-exact (mchap/combinatorics.py:count_unique_genotypes)
+        from mchap.combinatorics import count_unique_genotypes
+
+        return [{"ngen": limbs(int(count_unique_genotypes(n, k)))} for n, k in task["nk"]]
     if op == "random_trace":
         # code -> spec: calls on large random arguments, recorded as limb lists
         import random
@@ -121,5 +127,9 @@ def run(task):
             k = rnd.randint(1, 13)
             if mcomb(n + k - 1, k) < 2**53:
                 ev.append({"op": "combr", "n": n, "k": k, "limbs": limbs(J.comb_with_replacement(n, k))})
+                if n >= 1 and k >= 1:
+                    from mchap.combinatorics import count_unique_genotypes
+
+                    ev.append({"op": "combr", "n": n, "k": k, "limbs": limbs(int(count_unique_genotypes(n, k)))})
         return ev
     raise ValueError(op)
